@@ -92,7 +92,7 @@ def check(ctx, prop):
         if h is None or inv not in r.violated:
             raise Broken("deviation %s no longer violates %s in the model (vacuous deviation)" % (dev, inv))
         scheds.append({"steps": h + [{"a": "ProbeAll"}]}); labels.append("dev:" + dev)
-    n = 120 if quick else 1500
+    n = 120 if quick else 400
     hs, _ = T.simulate_hists(ctx, d, "MC_ConsoleAuth.tla", "Sim_ConsoleAuth.cfg", num=n, depth=26, seed=ctx.seed)
     # TLC evaluates the printing invariant on every successor it generates before choosing one: keep the completed
     # behaviours only (no action is ever disabled, so every behaviour reaches the MaxOps bound of Sim_ConsoleAuth.cfg)
